@@ -296,13 +296,12 @@ def _cifar(check: Check):
   # reference from the installed TensorFlow source
   tf_ref = _tf_min_stddev()
   floor = None
-  for ds in ff.rd.defs_at.values():
-    for d in ds:
-      if isinstance(d.value, ast.Call) and ff.ext(d.value.func) in ('numpy.maximum', 'jax.numpy.maximum') and len(d.value.args) == 2:
-        std = [a for a in d.value.args if any(isinstance(x, ast.Call) and ff.ext(x.func) in ('numpy.std',) for x in ff.expand(a))]
-        other = [a for a in d.value.args if a not in std]
-        if std and other:
-          floor = other[0]
+  for _, mc in ff.calls():
+    if ff.ext(mc.func) in ('numpy.maximum', 'jax.numpy.maximum') and len(mc.args) == 2:
+      std = [a for a in mc.args if any(isinstance(x, ast.Call) and ff.ext(x.func) in ('numpy.std',) for x in ff.expand(a))]
+      other = [a for a in mc.args if a not in std]
+      if std and other:
+        floor = other[0]
   if floor is None:
     check.inconclusive('R-SIB.tf', fi, 'np.maximum(std, floor)', 'std floor not found')
   else:
